@@ -14,6 +14,7 @@ RULE = ('DAG family: every DAG shape with <= N distinct cells x payload variants
         'points; the parsed root must have the same hash and the same structure (bits, types, refs, recursively). non-trivial = more than '
         'one cell or unaligned data; states = distinct (DAG, option set); transitions = serialise/parse calls; traces = round trips compared '
         'with the reference structure')
+RULE += ' Fifth session: hex text in upper and mixed case; the requests to_boc(has_cache_bits=True) without has_idx (two more option sets).'
 LEVEL_TEXT = ('Bounded-exhaustive round-trip exploration of the real serialiser and parser: all DAG shapes up to the node bound, the content '
               'alphabet, exotic trees and every header-width boundary, under all 6 option sets, 3 encodings and 3 entry points, with structural '
               'comparison against the reference description of the DAG (not only hash equality).')
